@@ -7,7 +7,9 @@
 //!   * `rand`  uniform random choice among the live workers,
 //!   * `pct`   PCT-style random priorities with d-1 priority change points (a worker reaching the idle
 //!             sleep is demoted, so spinning never starves a worker that holds work),
-//!   * `dfs`   every schedule up to a pre-emption bound (depth-first, stateless re-execution),
+//!   * `dfs`   every schedule with at most b deviations from the non-pre-emptive round-robin scheduler (a deviation =
+//!             pre-empting a running worker, or not taking the next worker in round-robin order when the current one
+//!             reaches the idle sleep or exits); depth-first, stateless re-execution,
 //!   * `fixed` an explicit worker sequence (replays).
 //! A visitor `Quit` is injected at a chosen visit index.  The observed schedule (worker per step, and
 //! for successful steal rounds the victim and batch size read off the deque lengths) is replayed in
@@ -205,6 +207,13 @@ struct Inner {
     max_steps: usize,
     init_lens: Option<Vec<usize>>,
     quit_at: Option<usize>,
+    /// per worker: number of consecutive idle-loop transitions (Pop->Steal, Steal->Sleep, Sleep->Pop) it made
+    /// while every deque was empty; reset for everybody as soon as anything else happens
+    idle_streak: Vec<usize>,
+    /// wall-clock time of the last scheduling decision / arrival (watchdog: a worker that dies without reaching a
+    /// yield point would otherwise leave everybody parked for ever)
+    last_progress: std::time::Instant,
+    done: bool,
 }
 
 struct Sched {
@@ -230,6 +239,7 @@ impl Sched {
             drop(g);
             std::panic::panic_any(ABORT);
         }
+        g.last_progress = std::time::Instant::now();
         let arr = Arrive {
             point: info.point,
             lens: info.deque_lens.clone(),
@@ -238,6 +248,20 @@ impl Sched {
         };
         if g.running == Some(w) {
             let i = g.decisions.len() - 1;
+            let from = g.decisions[i].point;
+            let idle_move = matches!(
+                (from, arr.point),
+                (YieldPoint::Pop, YieldPoint::Steal)
+                    | (YieldPoint::Steal, YieldPoint::Sleep)
+                    | (YieldPoint::Sleep, YieldPoint::Pop)
+            ) && arr.lens.iter().all(|l| *l == 0);
+            if idle_move {
+                g.idle_streak[w] += 1;
+            } else {
+                for x in g.idle_streak.iter_mut() {
+                    *x = 0;
+                }
+            }
             g.posts[i] = Some(arr.clone());
             g.running = None;
         } else if g.init_lens.is_none() {
@@ -258,6 +282,9 @@ impl Sched {
         g.granted[w] = false;
         let arr = g.parked[w].take().unwrap();
         if arr.point == YieldPoint::Exit {
+            for x in g.idle_streak.iter_mut() {
+                *x = 0;
+            }
             g.finished[w] = true;
             g.running = None;
             self.maybe_decide(&mut g);
@@ -274,6 +301,14 @@ impl Sched {
         }
         if g.decisions.len() >= g.max_steps {
             g.abort = Some("step bound exceeded (hang)".to_string());
+            self.cv.notify_all();
+            return;
+        }
+        // Sound livelock detection: every live worker has gone round the idle loop of get_work (>= 4 consecutive
+        // idle-loop transitions each, i.e. at least one full Pop -> Steal -> Sleep -> Pop cycle) while every deque
+        // was empty and nothing else happened: no worker can ever receive anything again.
+        if live.iter().all(|w| g.idle_streak[*w] >= 4) {
+            g.abort = Some("livelock: every live worker spins in the idle loop and every deque is empty".to_string());
             self.cv.notify_all();
             return;
         }
@@ -370,6 +405,9 @@ fn real_run(roots: &[PathBuf], n: usize, quit_at: Option<usize>, policy: Policy,
             max_steps,
             init_lens: None,
             quit_at,
+            idle_streak: vec![0; n],
+            last_progress: std::time::Instant::now(),
+            done: false,
         }),
         cv: Condvar::new(),
         main: std::thread::current().id(),
@@ -382,6 +420,29 @@ fn real_run(roots: &[PathBuf], n: usize, quit_at: Option<usize>, policy: Policy,
     }
     b.standard_filters(false).threads(n);
     let walker = b.build_parallel();
+    // watchdog: no yield-point arrival for 8 s means a worker is stuck or died outside the hook
+    let s4 = sched.clone();
+    let done = Arc::new((Mutex::new(false), Condvar::new()));
+    let done2 = done.clone();
+    let watchdog = std::thread::spawn(move || {
+        let (m, cv) = &*done2;
+        let mut fin = m.lock().unwrap();
+        loop {
+            if *fin {
+                return;
+            }
+            let (f, _) = cv.wait_timeout(fin, std::time::Duration::from_millis(500)).unwrap();
+            fin = f;
+            if *fin {
+                return;
+            }
+            let mut g = s4.lock();
+            if g.abort.is_none() && g.last_progress.elapsed() > std::time::Duration::from_secs(8) {
+                g.abort = Some("no worker reached a yield point for 8 s (a worker died or blocked)".to_string());
+                s4.cv.notify_all();
+            }
+        }
+    });
     let s3 = sched.clone();
     let res = std::panic::catch_unwind(std::panic::AssertUnwindSafe(|| {
         walker.run(|| {
@@ -405,6 +466,13 @@ fn real_run(roots: &[PathBuf], n: usize, quit_at: Option<usize>, policy: Policy,
         })
     }));
     set_yield_hook(None);
+    sched.lock().done = true;
+    {
+        let (m, cv) = &*done;
+        *m.lock().unwrap() = true;
+        cv.notify_all();
+    }
+    let _ = watchdog.join();
     let g = sched.lock();
     RunOut {
         decisions: g.decisions.clone(),
@@ -860,7 +928,7 @@ fn gen_forest(rng: &mut Rng, max_nodes: usize) -> Vec<Node> {
     f
 }
 
-/// All schedules of one configuration up to the pre-emption bound (stateless depth-first search).
+/// All schedules of one configuration within the deviation bound (stateless depth-first search).
 fn explore(
     base: &Case,
     bound: u32,
@@ -914,7 +982,8 @@ fn main() {
         "C07",
         "Real WalkParallel (threads 1..4) on generated forests (<= 9 entries; files, empty dirs, chains, fan-out, \
          several roots, a file root), every worker parked at each verif-hooks yield point and released one at a time \
-         by a uniform-random, a PCT-style priority or an exhaustive pre-emption-bounded (dfs) scheduler; visitor Quit \
+         by a uniform-random, a PCT-style priority or an exhaustive deviation-bounded (dfs: all schedules with <= b \
+         pre-emptions / non-default picks relative to non-pre-emptive round-robin, b = 1..3) scheduler; visitor Quit \
          injected at every visit index. Each observed schedule is replayed in the Lean model. Non-trivial: >= 2 workers \
          and (a successful steal or an injected quit that was reached). Distinct by forest + worker sequence.",
     );
@@ -976,6 +1045,9 @@ fn main() {
                 quits.push(Some(q));
             }
             for q in quits {
+                if rep.violations.len() >= 6 {
+                    break;
+                }
                 let base = Case { n, quit: q, forest: forest.clone(), sched: String::new() };
                 let (runs, complete) = explore(&base, bound, cap, &mut sc, &mut drv, &mut rep);
                 total_runs += runs;
@@ -984,13 +1056,17 @@ fn main() {
             }
         }
         rep.notes.push(format!(
-            "dfs: {} runs; every schedule up to the stated pre-emption bound enumerated for every configuration: {}",
+            "dfs: {} runs; every schedule within the deviation bound enumerated for every (tree, workers, quit index) configuration: {}",
             total_runs, all_complete
         ));
         // ---- random / PCT
         let total = args.cases.unwrap_or(if args.thorough { 40000 } else { 2500 });
         let mut forest = gen_forest(&mut rng, 6);
         for i in 0..total {
+            if rep.violations.len() >= 6 {
+                rep.notes.push(format!("stopped after {} random cases: enough violations to report", i));
+                break;
+            }
             if i % 8 == 0 {
                 let max_nodes = if i % 64 == 0 { 9 } else { rng.range(2, 7) };
                 forest = gen_forest(&mut rng, max_nodes);
